@@ -188,18 +188,40 @@ func instantiate(entries []PCEntry, goal *Term) (extra []string, goalText string
 		}
 	}
 	n := 0
-	// skolemise the goal (structure-preserving)
-	g := goal
-	for g.op == "forall" && len(g.qvars) > 0 && len(g.args) == 1 {
-		body := g.args[0]
-		for _, v := range g.qvars {
-			n++
-			sk := fmt.Sprintf("sk!%d!%s", n, strings.ReplaceAll(v[0], "!", "_"))
-			extra = append(extra, "(declare-const "+sk+" "+v[1]+")")
-			body = substTree(body, v[0], sk)
+	// skolemise the goal (structure-preserving): universal quantifiers in positive position - the
+	// goal itself, conjuncts of it, consequents of implications in it - get fresh constants (the
+	// negated goal asks for one counterexample index each)
+	var skolemGoal func(t *Term) *Term
+	skolemGoal = func(t *Term) *Term {
+		if t == nil || !strings.Contains(t.s, "(forall ") {
+			return t
 		}
-		g = body
+		switch t.op {
+		case "forall":
+			if len(t.qvars) > 0 && len(t.args) == 1 {
+				body := t.args[0]
+				for _, v := range t.qvars {
+					n++
+					sk := fmt.Sprintf("sk!%d!%s", n, strings.ReplaceAll(v[0], "!", "_"))
+					extra = append(extra, "(declare-const "+sk+" "+v[1]+")")
+					body = substTree(body, v[0], sk)
+				}
+				return skolemGoal(body)
+			}
+		case "and":
+			var as []*Term
+			for _, a := range t.args {
+				as = append(as, skolemGoal(a))
+			}
+			return app(SBool, "and", as...)
+		case "=>":
+			if len(t.args) == 2 {
+				return app(SBool, "=>", t.args[0], skolemGoal(t.args[1]))
+			}
+		}
+		return t
 	}
+	g := skolemGoal(goal)
 	goalText = g.s
 
 	var hyps []qhyp
